@@ -96,6 +96,31 @@ class Interp:
         s.fired[key] = (ok, value, s.now)
         self.wake(s, key)
 
+    def make_cond(self, s, key, kind, targets):
+        members = []
+        for j, t in enumerate(targets):
+            if t[0] == 't':
+                mk = key + (j,)
+                mk = ('t',) + mk[1:]
+                s.timers.append([s.now + t[1], mk, True, t[2]])
+                members.append(mk)
+            elif t[0] == 'c':
+                mk = key + (j,)
+                self.make_cond(s, mk, t[1], t[2])
+                members.append(mk)
+            else:
+                members.append(tuple(t))
+        s.conds[key] = {'kind': kind, 'members': tuple(members), 'seen': -1}
+
+    def flat(self, s, members):
+        out = []
+        for m in members:
+            if m in s.conds:
+                out += self.flat(s, s.conds[m]['members'])
+            elif m in s.fired and s.fired[m][0]:
+                out.append((m, s.fired[m][1]))
+        return out
+
     def cond_eval(self, s, key):
         c = s.conds[key]
         got = [m for m in c['members'] if m in s.fired]
@@ -109,7 +134,7 @@ class Interp:
             return
         need = len(c['members']) if c['kind'] == 'allof' else (1 if c['members'] else 0)
         if len(got) >= need:
-            self.fire(s, key, True, tuple((m, s.fired[m][1]) for m in got))
+            self.fire(s, key, True, tuple(self.flat(s, c['members'])))
 
     def deliver(self, s, p):
         v = s.st[p]
@@ -188,15 +213,7 @@ class Interp:
                     key = ('p', op[1])
                 elif k in ('allof', 'anyof'):
                     key = ('c',) + owner
-                    members = []
-                    for j, t in enumerate(op[1]):
-                        if t[0] == 't':
-                            mk = ('t',) + owner + (j,)
-                            s.timers.append([s.now + t[1], mk, True, t[2]])
-                            members.append(mk)
-                        else:
-                            members.append(tuple(t))
-                    s.conds[key] = {'kind': k, 'members': tuple(members), 'seen': -1}
+                    self.make_cond(s, key, k, op[1])
                 elif k == 'native':
                     key = ('n',) + owner
                     if op[1] == 'delay':
@@ -344,7 +361,7 @@ class Interp:
             elif tr[0] == 'settle':
                 key = tr[1]
                 c.settled.add(key)
-                if key not in c.defused:
+                if key not in c.defused and not (key[0] == 'e' and key[1] in self.program.get('defuse', ())):
                     out.append(('end', (('raised', c.fired[key][1]), None, None, None)))
                     continue
             elif tr[0] == 'stop':
@@ -448,13 +465,27 @@ def run_real(program):
                         procs[op[1]].interrupt(op[2])
                         obs[name].append((env.now, ('ok',)))
                     elif k in ('allof', 'anyof'):
-                        made = []
-                        for t in op[1]:
-                            made.append(env.timeout(t[1], t[2]) if t[0] == 't' else (events[t[1]] if t[0] == 'e' else procs[t[1]]))
-                        cls = simpy.AllOf if k == 'allof' else simpy.AnyOf
+                        keys = {}
+
+                        def make(kind, targets, key):
+                            made = []
+                            for j, t in enumerate(targets):
+                                if t[0] == 't':
+                                    ev = env.timeout(t[1], t[2])
+                                    keys[ev] = ('t',) + key[1:] + (j,)
+                                elif t[0] == 'c':
+                                    ev = make(t[1], t[2], key + (j,))
+                                elif t[0] == 'e':
+                                    ev = events[t[1]]
+                                    keys[ev] = ('e', t[1])
+                                else:
+                                    ev = procs[t[1]]
+                                    keys[ev] = ('p', t[1])
+                                made.append(ev)
+                            return (simpy.AllOf if kind == 'allof' else simpy.AnyOf)(env, made)
                         try:
-                            cv = yield cls(env, made)
-                            obs[name].append((env.now, ('val', cond_value(program, owner, op, cv, made))))
+                            cv = yield make(k, op[1], ('c',) + owner)
+                            obs[name].append((env.now, ('val', tuple((keys[ev], cv[ev]) for ev in cv))))
                         except KeyError as e:
                             obs[name].append((env.now, ('exc', e.args[0])))
                     elif k == 'native':
@@ -481,6 +512,11 @@ def run_real(program):
             procs[name] = env.process(body(name, ops))
         for src, dst in program.get('chains', []):
             events[src].callbacks.append(events[dst].trigger)
+        for name in program.get('defuse', []):
+            # the supervision idiom: a callback that handles the failure of the event
+            def handle(event):
+                event.defused = True
+            events[name].callbacks.append(handle)
         for key, ev in list(events.items()) + list(procs.items()):
             def cbk(event, key=key):
                 cbcount[key] = cbcount.get(key, 0) + 1
@@ -596,7 +632,10 @@ def cases(tier):
                  ['succeed', 'e0', 'v'], ['timeout', 0, 'z']], [None, 2]),
         'cond': ([['allof', [['t', 1, 'a'], ['e', 'e0']]], ['anyof', [['t', 1, 'a'], ['t', 2, 'b']]], ['anyof', [['e', 'e0'], ['e', 'e1']]],
                   ['allof', [['e', 'e0'], ['e', 'e1']]], ['anyof', []], ['timeout', 1, 'a'], ['succeed', 'e0', 'v'], ['succeed', 'e1', 'w'],
-                  ['fail', 'e1', 'x']], [None, ['e', 'e1']]),
+                  ['fail', 'e1', 'x'],
+                  ['allof', [['c', 'anyof', [['t', 1, 'a'], ['t', 2, 'b']]], ['t', 3, 'c']]],
+                  ['anyof', [['c', 'allof', [['t', 1, 'a'], ['e', 'e0']]], ['t', 2, 'c']]],
+                  ['allof', [['c', 'anyof', [['e', 'e0'], ['t', 2, 'b']]], ['e', 'e1']]]], [None, ['e', 'e1']]),
         'proc': ([['waitproc', 'OTHER'], ['timeout', 1, 'a'], ['return', 7], ['return', 0], ['raise', 'boom'], ['timeout', 0, 'z'],
                   ['interrupt', 'OTHER', 'c']], [None, ['p', 'p0'], 0]),
         'chain': ([['wait', 'e0'], ['wait', 'e1'], ['succeed', 'e0', 'v'], ['fail', 'e0', 'x'], ['timeout', 1, 'a'], ['waitraise', 'e1']],
@@ -619,6 +658,10 @@ def cases(tier):
                 base = {'family': fam, 'procs': [['p0', p0], ['p1', p1]], 'until': u, 'events': ['e0', 'e1'], 'mode': 'standalone'}
                 if fam == 'chain':
                     base['chains'] = [['e0', 'e1']]
+                if fam in ('events', 'chain') and u is None and any(op[0] == 'fail' for op in p0 + p1):
+                    sup = dict(base)
+                    sup['defuse'] = ['e0', 'e1']
+                    out.append(sup)
                 out.append(base)
                 if (fam in ('native', 'events') or thorough) and (u is None or u == 2):
                     emb = dict(base)
